@@ -15,7 +15,7 @@ or default-layer change left to replay, no name both listed and scheduled, names
 `SyncedM s` = `Synced s` except for glyphs that exist in memory only (created or renamed in memory
 under a name the UFO does not hold yet).
 -/
-import DefconModel.Lemmas.ExtGlyphs
+import DefconModel.Lemmas.ExtReload
 
 namespace DefconModel.Props.C05
 open DefconModel DefconModel.Ext
@@ -289,6 +289,66 @@ theorem reload_file_converges (s : State) (img : Bool) (n : String) (f : File)
   obtain ⟨s', h1, h2, h3⟩ := reloadFile_spec img hz hf
   exact ⟨s', h1, h2, h3, by rw [h2]; exact isModifiedFile_of_stamp hf⟩
 
+/-! ## 4a. Reloading everything the report lists -/
+
+/-- RELOAD, everything.  The font is in step with its UFO (and its bookkeeping tidy).  Another
+program then changes the UFO in any way that deletes nothing the font lists (`Keeps`: there is no
+reload method for deletions) — it may rewrite, touch, create or delete top-level files, rewrite and
+add glyphs, change layer infos, rewrite and add images and data files, add layers, reorder them,
+change the default layer (the result `d'` is a UFO: names unique, its default layer exists).  Then
+`testForExternalChanges`, then the reload method for every entry of the report — `reloadInfo/…/
+reloadLib` for the flagged objects, `reloadImages`, `reloadData` for the modified and added names,
+`reloadLayers` with the added layers, the info and the modified and added glyphs of the modified
+layers, the order and the default flags: no reload raises, and the second test names nothing. -/
+theorem reload_all_converges (s : State) (h : Synced s) (ht : Tidy s) (d' : Disk) (hd : DiskOk d')
+    (hn : (layerNames d').Nodup) (hdef : ∃ dn, d'.default = some dn ∧ dn ∈ layerNames d') (hk : Keeps s.disk d') :
+    ∃ s3, reloadAuto (test { s with disk := d' }).1 = (s3, none) ∧ s3.disk = d' ∧
+      report s3 = quietReport s3 := by
+  obtain ⟨s3, e, hdisk, hs, _⟩ := reload_all h ht hd hn hdef hk
+  exact ⟨s3, e, hdisk, report_settled hs⟩
+
+/-- RELOAD, layers (after the repairs F58–F60).  In the same situation, after the reloads: the
+second report lists nothing for layers (none added, none deleted, no order change, no default-layer
+change, no layer entry); the layer set is the one a fresh open of the UFO reads — the same order, the
+same default layer, the same layer names; every layer, the ones just added included, is bound to an
+open glyph set of the font's reader that lists the glyphs on disk (F58: unread glyphs can be read,
+`usable_lazy_read`); and the layer history holds no deletion and no default-layer change that a later
+save would replay over the UFO (F60). -/
+theorem reload_layers_converges (s : State) (h : Synced s) (ht : Tidy s) (d' : Disk) (hd : DiskOk d')
+    (hn : (layerNames d').Nodup) (hdef : ∃ dn, d'.default = some dn ∧ dn ∈ layerNames d') (hk : Keeps s.disk d') :
+    ∃ s3, reloadAuto (test { s with disk := d' }).1 = (s3, none) ∧
+      ((report s3).added = [] ∧ (report s3).deleted = [] ∧ (report s3).order = false ∧
+        (report s3).defaultLayer = false ∧ (report s3).modified = []) ∧
+      (s3.font.order = (openFont s.zip d' s.emptyGlyph).font.order ∧
+        s3.font.default = (openFont s.zip d' s.emptyGlyph).font.default ∧
+        ∀ ln, AL.contains s3.font.layers ln = AL.contains (openFont s.zip d' s.emptyGlyph).font.layers ln) ∧
+      (∀ ln, ln ∈ s3.font.order → Bound s3 ln) ∧
+      (∀ a, a ∈ s3.font.history → TameAction s3.font.default a) := by
+  obtain ⟨s3, e, hdisk, hs, hb, hh, honly⟩ := reload_all h ht hd hn hdef hk
+  have hq := report_settled hs
+  refine ⟨s3, e, ?_, ⟨?_, ?_, ?_⟩, hb, hh⟩
+  · rw [hq]; exact ⟨rfl, rfl, rfl, rfl, rfl⟩
+  · rw [hs.order, hdisk]; rfl
+  · rw [hs.default, hdisk]; rfl
+  · intro ln
+    have e2 : AL.contains (openFont s.zip d' s.emptyGlyph).font.layers ln = AL.contains d'.layers ln :=
+      contains_map_val openLayer d'.layers ln
+    rw [e2]
+    cases hc : AL.contains s3.font.layers ln with
+    | true =>
+      have := honly ln hc
+      rw [hs.order, hdisk] at this
+      exact ((AL_mem_keys_iff_contains _ _).1 this).symm
+    | false =>
+      cases hc2 : AL.contains d'.layers ln with
+      | false => rfl
+      | true =>
+        exfalso
+        have hin : ln ∈ s3.font.order := by
+          rw [hs.order, hdisk]; exact (AL_mem_keys_iff_contains _ _).2 hc2
+        obtain ⟨l, _, hg, _⟩ := hs.layers ln hin
+        simp [AL.contains, hg] at hc
+
 /-! ## 4b. Save-as -/
 
 /-- SAVE-AS, in step.  A save-as (to a path where nothing exists) from a font in step with its UFO
@@ -465,6 +525,55 @@ example : (report (step demoSaveAs (.xglyph "fore" "A" (.write 5) (some 3))).1).
     (report (run demoSaveAs [.xglyph "fore" "A" (.write 5) (some 3), .test, .reload])).modified = [] := by decide
 example : (report (step demoSaveAs (.xfile true "i.png" (.write 7) (some 4))).1).images.added = ["i.png"] := by decide
 example : Bound (test demo).1 "fore" := usable_after_test demo "fore" _ (by decide) (by decide) rfl
+
+/-- another program rewrites fontinfo, creates kerning.plist, rewrites the loaded glyph `A`, adds a
+glyph, changes a layer info, adds an image, rewrites the data file the font has scheduled for
+deletion, adds a layer, reorders the layers and changes the default layer — and deletes nothing -/
+def demoDisk2 : Disk :=
+  { parts := [(.info, ⟨11, 6⟩), (.lib, ⟨2, 0⟩), (.kerning, ⟨21, 6⟩)]
+    layers := [("new", { info := 4, glifs := [("N", ⟨14, 6⟩)] }), ("back", { info := 3, glifs := [("B", ⟨13, 6⟩)] }),
+               ("fore", { info := 0, glifs := [("A", ⟨12, 6⟩), ("C", ⟨15, 6⟩)] })]
+    default := some "back"
+    images := [("i.png", ⟨7, 0⟩), ("j.png", ⟨17, 6⟩)], data := [("d.txt", ⟨18, 6⟩)] }
+example : Keeps demo.disk demoDisk2 := by
+  refine ⟨by decide, ?_, by decide, by decide⟩
+  intro ln gn hgn
+  by_cases e1 : ln = "fore"
+  · subst e1; revert gn; decide
+  · by_cases e2 : ln = "back"
+    · subst e2; revert gn; decide
+    · have : glifNames demo.disk ln = [] := by
+        have hl : demo.disk.layers = [("fore", { info := 0, glifs := [("A", ⟨5, 5⟩)] }), ("back", {})] := by decide
+        simp [glifNames, hl, AL.get?_cons, Ne.symm e1, Ne.symm e2]
+      rw [this] at hgn
+      cases hgn
+example : DiskOk demoDisk2 := by
+  refine ⟨?_, by decide, by decide⟩
+  intro ln dl h
+  simp only [demoDisk2, AL.get?_cons, AL.get?_nil] at h
+  split at h
+  · injection h with h; subst h; decide
+  · split at h
+    · injection h with h; subst h; decide
+    · split at h
+      · injection h with h; subst h; decide
+      · cases h
+example : (report { demo with disk := demoDisk2 }).added = ["new"] ∧ (report { demo with disk := demoDisk2 }).order = true ∧
+    (report { demo with disk := demoDisk2 }).defaultLayer = true ∧
+    (report { demo with disk := demoDisk2 }).modified =
+      [("fore", { info := false, modified := ["A"], added := ["C"], deleted := [] }),
+       ("back", { info := true, modified := [], added := ["B"], deleted := [] })] ∧
+    (report { demo with disk := demoDisk2 }).images.added = ["j.png"] ∧
+    (report { demo with disk := demoDisk2 }).data.added = ["d.txt"] := by decide
+example : (reloadAuto (test { demo with disk := demoDisk2 }).1).2 = none ∧
+    report (reloadAuto (test { demo with disk := demoDisk2 }).1).1 =
+      quietReport (reloadAuto (test { demo with disk := demoDisk2 }).1).1 ∧
+    (reloadAuto (test { demo with disk := demoDisk2 }).1).1.font.order = ["new", "back", "fore"] ∧
+    (reloadAuto (test { demo with disk := demoDisk2 }).1).1.font.default = some "back" := by decide
+/-- … and the next in-place save keeps every glyph file (F60) -/
+example : ((save (reloadAuto (test { demo with disk := demoDisk2 }).1).1 100 101).toOption.map fun s' =>
+    s'.disk.layers.map fun p => (p.1, AL.keys p.2.glifs)) =
+      some [("new", ["N"]), ("back", ["B"]), ("fore", ["A", "C"])] := by decide
 
 /-- in-place saves in the middle of a quiet history: values edited, a glyph and an image deleted in
 memory, save, the deleted image created again, save, test -/
